@@ -1290,7 +1290,7 @@ class sptensor:
         # Assemble return array
         nvals = wsubs.shape[0]
         vals = np.zeros((nvals, 1))
-        vals[matching_indices] = self.vals[matching_indices]
+        vals[valid] = self.vals[matching_indices]
         return vals
 
     def mttkrp(
